@@ -129,6 +129,9 @@ def gen_params(rng, fn, data):
         p["dtype"] = "datetime64[ns]"
     if fn == "climatology_test" and rng.chance(0.5):
         p["__as_object__"] = True
+    if fn == "climatology_test" and rng.chance(0.4):
+        # each end point of a date span in its own spelling (all of them parse to the same instant)
+        p["__tspan_forms__"] = [[rng.pick(("str", "datetime", "dt64", "timestamp", "date")) for _ in range(2)] for _ in p["config"]]
     if rng.chance(0.35) and p.get("dtype") is None:
         p["__form__"] = rng.pick(("tuples", "numpy"))  # the same values as tuples / numpy scalars
     return p
@@ -248,6 +251,18 @@ def build_params(fn, params):
         from sim.pipeline import reform
 
         p = {k: reform(v, params["__form__"]) for k, v in p.items()}
+    if fn == "climatology_test" and params.get("__tspan_forms__"):
+        import datetime as _dt
+
+        import pandas as _pd
+
+        for m, forms in zip(p["config"], params["__tspan_forms__"]):
+            if m.get("period") is None and all(isinstance(x, str) for x in m["tspan"]):
+                out = []
+                for text, form in zip(m["tspan"], forms):
+                    ts = _pd.Timestamp(text)
+                    out.append({"str": text, "datetime": ts.to_pydatetime(), "dt64": np.datetime64(text), "timestamp": ts, "date": _dt.date(ts.year, ts.month, ts.day)}[form])
+                m["tspan"] = out
     if fn == "climatology_test" and params.get("__as_object__"):
         from ioos_qc.qartod import ClimatologyConfig
 
